@@ -15,7 +15,7 @@ An item is (name, kind, template, slots, needs, keywords, flags):
 """
 import json, os
 
-INT = ['-32769', '-32768', '-1', '0', '1', '255', '256', '32767', '32768', '65535', '65536', '1E38', '-1E38', '1D300']
+INT = ['-32769', '-32768', '-1', '0', '1', '255', '256', '32767', '32768', '65535', '65536', '1E38', '-1E38', '1D300', '-65536', '-65537']
 STR = ['""', '"A"', 'STRING$(255,"A")', '"A"+CHR$(0)+"B"', 'CHR$(255)+"X"', '"A=B"', '"A\\B"']
 LINE = ['0', '1000', '15', '65529', '65530']            # 1000 = existing line of every skeleton, 15 = missing
 FNUM = ['0', '1', '2', '3', '4', '255', '256', '-1']
@@ -150,6 +150,7 @@ S('ON_STRIG', 'ON STRIG({0}) GOSUB {1}', 'il', P + ['ev'], kw=['ON', 'STRIG'])
 S('DEF_FN', 'DEF FNA(X,Y$)=X+{0}:PRINT FNA(1,"A")', 'i', P, kw=['DEF', 'FN'])
 S('DEF_FN_STR', 'DEF FNS$(X$)=X$+{0}:PRINT FNS$({0})', 's', P, kw=['DEF', 'FN'])
 S('DEF_FN_REC', 'DEF FNR(X)=FNR(X)+1:PRINT FNR({0})', 'i', P, kw=['DEF', 'FN'])
+S('DEF_FN_CHAIN', 'DEF FNS$(X$)=X$+"":A$=FNS$("A"):CHAIN "PROG.BAS",{0},ALL', 'l', P + [F], kw=['DEF', 'FN', 'CHAIN'])
 S('DEF_USR', 'DEF USR{0}={1}', 'ii', ['seg'], kw=['DEF', 'USR'])
 S('DEF_SEG', 'DEF SEG={0}', 'i', ['seg'], kw=['DEF'], flags=['quick'])
 S('DEF_SEG_BARE', 'DEF SEG', '', ['seg'], kw=['DEF'], flags=['quick', 'eff:seg_data'])
